@@ -540,20 +540,45 @@ func runDecoderStability(c *core.Case) {
 		stdjson.Unmarshal(b, &w)
 		want = append(want, w)
 	}
+	// the stream may end in a bare number without anything after it, or inside a value
+	ending := r.Intn(4)
+	switch ending {
+	case 1:
+		stream.WriteString("12345")
+	case 2:
+		stream.WriteString(`{"ID":"cut`)
+	}
 	data := stream.Bytes()
 	snap := append([]byte(nil), data...)
-	dec := json.NewDecoder(&chunked{data: data, step: core.Pick(r, []int{1 << 20, 4096, 777, 50000})})
+	// the reader hands out the caller's bytes in different ways: copied in chunks, or through
+	// the standard in-memory readers that expose them directly
+	var rd io.Reader
+	switch r.Intn(3) {
+	case 0:
+		rd = &chunked{data: data, step: core.Pick(r, []int{1 << 20, 4096, 777, 50000})}
+	case 1:
+		rd = bytes.NewBuffer(data)
+	default:
+		rd = bytes.NewReader(data)
+	}
+	dec := json.NewDecoder(rd)
 	var got []recT
 	for {
 		var v recT
 		if err := dec.Decode(&v); err != nil {
-			if err != io.EOF {
+			if err != io.EOF && ending == 0 {
 				c.Violation("decoder-stability", "decode-error", fmt.Sprintf("Decoder failed on a valid stream of %d records: %v", n, err), nil)
 				return
 			}
 			break
 		}
 		got = append(got, v)
+		if len(got) > n {
+			break
+		}
+	}
+	if len(got) > n {
+		got = got[:n]
 	}
 	burst(r, 1)
 	if len(got) != len(want) {
@@ -598,6 +623,62 @@ func (r *chunked) Read(p []byte) (int, error) {
 }
 
 // Tokenizer.String / Unquote results and AppendUnescape ---------------------------------------------
+
+// key fragments: the pre-computed `,"name":` texts of a struct type (one plain, one HTML-escaped)
+// are shared by every encode of the type; encoding in one mode must not disturb the other.
+type fragNames struct {
+	A int    `json:"a<b"`
+	B string `json:"x&y>z"`
+	C bool   `json:"<<tag>>"`
+	D int    `json:"plain"`
+	E int    `json:"é&è"`
+}
+
+func runKeyFragments(c *core.Case) {
+	c.Journal("key-fragments")
+	r := c.Rng
+	// a type not seen before in this process for every few cases: library type, local type, generated
+	var v any
+	switch c.Index % 3 {
+	case 0:
+		v = fragNames{A: r.Intn(100), B: r.ASCIIString(0, 5), C: r.Bool(), D: 1, E: 2}
+	case 1:
+		v = jtypes.EscNames{A: r.Intn(9), B: 2, C: r.ASCIIString(0, 4), D: true, E: 5, F: 6, G: 7, H: 8, I: 9, J: 10}
+	default:
+		t := reflect.StructOf([]reflect.StructField{
+			{Name: "A", Type: reflect.TypeOf(0), Tag: reflect.StructTag(fmt.Sprintf(`json:"k%d<&>%s"`, c.Index, r.ASCIIString(0, 6)))},
+			{Name: "B", Type: reflect.TypeOf(""), Tag: reflect.StructTag(fmt.Sprintf(`json:"&%s"`, r.ASCIIString(1, 6)))},
+		})
+		x := reflect.New(t).Elem()
+		x.Field(0).SetInt(int64(r.Intn(50)))
+		x.Field(1).SetString(r.ASCIIString(0, 5))
+		v = x.Interface()
+	}
+	ref := func(html bool) []byte {
+		var buf bytes.Buffer
+		e := stdjson.NewEncoder(&buf)
+		e.SetEscapeHTML(html)
+		e.Encode(v)
+		return bytes.TrimSuffix(buf.Bytes(), []byte("\n"))
+	}
+	wantHTML, wantPlain := ref(true), ref(false)
+	order := []bool{r.Bool(), r.Bool(), true, false, true, false, false, true}
+	for i, html := range order {
+		fl := json.SortMapKeys
+		want := wantPlain
+		if html {
+			fl |= json.EscapeHTML
+			want = wantHTML
+		}
+		got, err := json.Append(nil, v, fl)
+		if err != nil || !bytes.Equal(got, want) {
+			c.Violation("key-fragments", "mode-disturbed", fmt.Sprintf("encode #%d (EscapeHTML=%v) of %T gives %s (err %v), encoding/json gives %s; order of modes %v", i, html, v, got, err, want, order[:i+1]), nil)
+			return
+		}
+	}
+	c.Count("key-fragments.encodes", len(order))
+	c.Distinct(core.Mix(uint64(c.Index), core.HashBytes(wantHTML)), true)
+}
 
 func runTokenizerOwnership(c *core.Case) {
 	c.Journal("tokenizer-ownership")
@@ -653,12 +734,13 @@ func runTokenizerOwnership(c *core.Case) {
 func init() {
 	core.Register(&core.Monitor{
 		Prop:    "C10",
-		Rule:    "decode-ownership: a document (a struct covering strings, a >64-byte field name, Number, RawMessage, []byte, five map kinds, interfaces, ',string'; or a generated type), optionally re-spelled with upper-case keys and \\u escapes or mutated, is placed inside a canary-filled backing array and parsed under a rotating subset of the 9 public ParseFlags: the whole backing array must be unchanged; every string/Number/RawMessage/[]byte/map-key leaf (len>=2) of the result is classified by address as inside or outside the input buffer and may be inside only under its own DontCopy flag; without zero-copy flags the input is then overwritten with 0xAA, a burst of Marshal/Encode/Unmarshal/Tokenizer/Decoder calls runs on 5 goroutines and the value must still equal a reference decode. marshal-stability: results of Marshal/Encoder are snapshotted, concurrently read while bursts run (race build) and re-compared; re-marshalling gives identical bytes. decoder-stability: 20-400 records (some 4-40 KB), or 200-3000 bare values decoded into top-level *RawMessage / *Number / *string / *any targets, through Decoder with chunked readers; every earlier record must keep its contents after all later Decode calls. tokenizer-ownership: String()/Unquote results and AppendUnescape. Distinct by (document, flags).",
+		Rule:    "decode-ownership: a document (a struct covering strings, a >64-byte field name, Number, RawMessage, []byte, five map kinds, interfaces, ',string'; or a generated type), optionally re-spelled with upper-case keys and \\u escapes or mutated, is placed inside a canary-filled backing array and parsed under a rotating subset of the 9 public ParseFlags: the whole backing array must be unchanged; every string/Number/RawMessage/[]byte/map-key leaf (len>=2) of the result is classified by address as inside or outside the input buffer and may be inside only under its own DontCopy flag; without zero-copy flags the input is then overwritten with 0xAA, a burst of Marshal/Encode/Unmarshal/Tokenizer/Decoder calls runs on 5 goroutines and the value must still equal a reference decode. marshal-stability: results of Marshal/Encoder are snapshotted, concurrently read while bursts run (race build) and re-compared; re-marshalling gives identical bytes. decoder-stability: 20-400 records (some 4-40 KB), or 200-3000 bare values decoded into top-level *RawMessage / *Number / *string / *any targets, through Decoder with chunked readers; every earlier record must keep its contents after all later Decode calls. key-fragments: struct types whose field names need HTML escaping are encoded eight times in a random order of EscapeHTML on/off, every output compared with encoding/json's for that mode. tokenizer-ownership: String()/Unquote results and AppendUnescape. Distinct by (document, flags).",
 		Trusted: []string{"address-range classification via reflect/unsafe in the harness", "encoding/json for reference decodes", "Go race detector for library writes into handed-out memory (race build)"},
 		Subs: []core.Sub{
 			{Name: "decode-ownership", N: core.Const(6000, 300000), Run: runDecodeOwnership},
 			{Name: "marshal-stability", N: core.Const(1200, 50000), Run: runMarshalStability},
 			{Name: "decoder-stability", N: core.Const(500, 20000), Run: runDecoderStability},
+			{Name: "key-fragments", N: core.Const(600, 20000), Run: runKeyFragments},
 			{Name: "tokenizer-ownership", N: core.Const(4000, 200000), Run: runTokenizerOwnership},
 		},
 	})
